@@ -574,7 +574,7 @@ class DiHypergraph:
         self._edge_attr[uid] = self._edge_attr_dict_factory()
         self._edge_attr[uid].update(attr)
 
-        if idx:  # set self._edge_uid correctly
+        if idx is not None:  # set self._edge_uid correctly
             update_uid_counter(self, idx)
 
     def add_edges_from(self, ebunch_to_add, **attr):
@@ -783,11 +783,12 @@ class DiHypergraph:
                 self._edge_attr[idx].update(attr)
                 self._edge_attr[idx].update(eattr)
 
+                if format2 or format4:
+                    update_uid_counter(self, idx)
+
             try:
                 e = next(new_edges)
             except StopIteration:
-                if format2 or format4:
-                    update_uid_counter(self, idx)
                 break
 
     def add_node_to_edge(self, edge, node, direction):
@@ -823,6 +824,7 @@ class DiHypergraph:
         if edge not in self._edge:
             self._edge[edge] = {"in": set(), "out": set()}
             self._edge_attr[edge] = {}
+            update_uid_counter(self, edge)
         if node not in self._node:
             self._node[node] = {"in": set(), "out": set()}
             self._node_attr[node] = {}
